@@ -332,8 +332,7 @@ def observe(x, kind, rng, store=True):
                     from tools.rect.satmanager import SATManager
                     SATManager().pseudoboolencoding(x, what.endswith("dec"))
             except Exception as e:            # the refusal of = and > non-clauses (any class / wording)
-                if isinstance(e, (TypeError, LookupError, AttributeError, NameError, AssertionError, RecursionError,
-                                  ArithmeticError)):
+                if isinstance(e, (TypeError, LookupError, AttributeError, NameError, RecursionError, ArithmeticError)):
                     raise
 
 
